@@ -153,6 +153,42 @@ Proof.
   intro H. inversion H; subst. exists w1, w2. split; [reflexivity | split; [exact E2 | exact E3]].
 Qed.
 
+(* a run that returns True: three completed passes over one sequence, the Markov pseudo-count of the model on
+   count_base_structures of the parser they produced, then the three writers, each returning True; the
+   last one is save_pcfg_data on that parser with the encoding and the save_sensitive option of the run *)
+Theorem run_true : forall (pi : pinfo O) (base : path) (w w' : c_W C),
+  m_run_trainer C pi base w = (Ok (Some true), w') ->
+  exists (t : trained_objs C) (w1 w2 : c_W C),
+    passes C pi w = Ok (inr t) /\ passes_ok pi w t /\
+    let view := c_pp_view C (to_parser t) in
+    let pp := c_pp_update C (to_parser t)
+                (set_po_count_base_structures view
+                   (with_markov (pi_coverage pi) (to_n t) (po_count_base_structures view))) in
+    (neqb O (pi_coverage pi) (none O) = true \/ c_ks_counter C (to_keyspace t) <> []) /\
+    c_save_config_file C base (to_pinfo t) (to_reader t) pp w = (Ok true, w1) /\
+    c_save_omen_rules_to_disk C (to_omen t) (to_keyspace t) (to_levels t) (to_n t) base (to_pinfo t) w1 = (Ok true, w2) /\
+    c_save_pcfg_data C base pp (pi_encoding pi) (pi_save_sensitive pi) w2 = (Ok true, w').
+Proof.
+  intros pi base w w' H.
+  destruct (run_writes_only_after_passes pi base w) as [(t & cbs & Hp & Hm & Hr) | (r & Hr & Hn)].
+  2: { rewrite Hr in H. inversion H; subst. contradiction. }
+  rewrite Hr in H. apply save_all_true in H. destruct H as (w1 & w2 & S1 & S2 & S3).
+  pose proof (passes_complete pi w t Hp) as Hok.
+  assert (Hpi : to_pinfo t = set_pi_alphabet pi (pi_alphabet (to_pinfo t))) by (destruct Hok; assumption).
+  assert (Hcov : pi_coverage (to_pinfo t) = pi_coverage pi) by (rewrite Hpi; destruct pi; reflexivity).
+  assert (Henc : pi_encoding (to_pinfo t) = pi_encoding pi) by (rewrite Hpi; destruct pi; reflexivity).
+  assert (Hsens : pi_save_sensitive (to_pinfo t) = pi_save_sensitive pi) by (rewrite Hpi; destruct pi; reflexivity).
+  rewrite Hcov in Hm. rewrite Henc, Hsens in S3.
+  assert (Hcbs : cbs = with_markov (pi_coverage pi) (to_n t) (po_count_base_structures (c_pp_view C (to_parser t))) /\
+                 (neqb O (pi_coverage pi) (none O) = true \/ c_ks_counter C (to_keyspace t) <> [])).
+  { unfold m_markov in Hm. unfold with_markov. destruct (c_ks_counter C (to_keyspace t)) as [|x r].
+    - destruct (neqb O (pi_coverage pi) (none O)); [|discriminate Hm]. inversion Hm. split; [reflexivity | left; reflexivity].
+    - inversion Hm. split; [reflexivity | right; discriminate]. }
+  destruct Hcbs as [Hc Hwhy]. subst cbs.
+  exists t, w1, w2. split; [exact Hp|]. split; [exact Hok|]. cbv zeta.
+  split; [exact Hwhy|]. split; [exact S1|]. split; [exact S2 | exact S3].
+Qed.
+
 End Facts.
 
 (* the command line: over the rationals, a coverage is accepted iff it lies in [0, 1] *)
